@@ -486,26 +486,39 @@ func c05FailedTar(t *T) {
 	add("top/x", false, "below a regular file") // the destination refuses this one with a typed error
 	add("e", true, "")
 	must(t, w.Close())
-	r, err := htar.NewReaderFS(context.Background(), bytes.NewReader(buf.Bytes()), htar.ReaderFSOptions{})
-	must(t, err)
-	<-r.Done()
-	if r.UnarchiveErr() == nil {
-		t.Logf("the archive with an entry below a regular file unpacked without error (C12's business)")
-		return
-	}
-	ls := &layerStack{name: "tar (a member could not be unpacked)", family: "tar-failed-member"}
-	names := []string{"top", "d", "d/f", "e", "missing", "d/missing", ".", "top/x"}
-	n := 1 + c.Draw(6)
-	t.Logf("stack=%s unarchive error=%v steps=%d", ls.name, r.UnarchiveErr(), n)
-	for i := 0; i < n; i++ {
-		o := Op{Kind: []string{"Stat", "ReadDir", "ReadFile", "OpenFile"}[c.Draw(4)], P: names[c.Draw(len(names))]}
-		got := applyOpX(r, o)
-		t.Logf("%d %s -> %v", i, o, got.Err)
-		if got.Err != nil {
-			judgeError(t, ls, o, got.Err, nil, o.Kind+"(after-failed-unpack)")
+	// under the scheduler: which of the two refusals the unpacker meets first (the background writer of "top"
+	// finding a directory, or the foreground MkdirAll finding a file) is a matter of schedule, and the background
+	// writers that are still on their way when the reader gives up must not outlive the trial
+	inBubble(t, 20000, func(s *Sched) {
+		r, err := htar.NewReaderFS(context.Background(), bytes.NewReader(buf.Bytes()), htar.ReaderFSOptions{})
+		must(t, err)
+		finished := false
+		s.Go("done-waiter", func() {
+			<-r.Done()
+			finished = true
+		})
+		s.Run()
+		if t.Failed() || !finished {
+			return
 		}
-	}
-	t.NonTrivial()
+		if r.UnarchiveErr() == nil {
+			t.Logf("the archive with an entry below a regular file unpacked without error (C12's business)")
+			return
+		}
+		ls := &layerStack{name: "tar (a member could not be unpacked)", family: "tar-failed-member"}
+		names := []string{"top", "d", "d/f", "e", "missing", "d/missing", ".", "top/x"}
+		n := 1 + c.Draw(6)
+		t.Logf("stack=%s unarchive error=%v steps=%d", ls.name, r.UnarchiveErr(), n)
+		for i := 0; i < n; i++ {
+			o := Op{Kind: []string{"Stat", "ReadDir", "ReadFile", "OpenFile"}[c.Draw(4)], P: names[c.Draw(len(names))]}
+			got := applyOpX(r, o)
+			t.Logf("%d %s -> %v", i, o, got.Err)
+			if got.Err != nil {
+				judgeError(t, ls, o, got.Err, nil, o.Kind+"(after-failed-unpack)")
+			}
+		}
+		t.NonTrivial()
+	})
 }
 
 // applyOpX is applyOp plus Symlink.
